@@ -16,8 +16,9 @@ enum Res {
 fn unit(u: &Value) -> Unit {
     Unit::new(u[0].as_i64().unwrap() as i8, u[1].as_i64().unwrap() as i8)
 }
+/// the raw value of a Time operand is what the crate's own conversion makes of it (how accurate that conversion is, is C18's business)
 fn secs(t: Time) -> f32 {
-    t.0 as f32 / 1_000_000_000.0
+    Quantity::from(t).value
 }
 
 struct Vals {
